@@ -1,6 +1,7 @@
 import TinodeVerif.Driver.C05
 import TinodeVerif.Driver.C04
 import TinodeVerif.Driver.C20
+import TinodeVerif.Driver.C17
 /-!
 Line-protocol driver. Usage:
   driver model    < ops.txt        > model.out     one output line per op line
@@ -17,6 +18,7 @@ def modelLine (line : String) : String :=
       if w.startsWith "acs." then Driver.C05.model ws
       else if w.startsWith "rng." then Driver.C04.model ws
       else if w.startsWith "uid." then Driver.C20.model ws
+      else if w.startsWith "ring." then Driver.C17.model ws
       else none
     match r with
     | some s => s
@@ -34,6 +36,7 @@ def verdictLine (line : String) : String :=
         if w.startsWith "acs." then Driver.C05.verdict ws os
         else if w.startsWith "rng." then Driver.C04.verdict ws os
         else if w.startsWith "uid." then Driver.C20.verdict ws os
+        else if w.startsWith "ring." then Driver.C17.verdict ws os
         else some true
       match r with
       | some true => "ok"
